@@ -149,6 +149,11 @@ type Scenario struct {
 	// signature HangSig. Its goroutine is abandoned.
 	Watchdog time.Duration
 	HangSig  string
+	// ShardN > 0 splits the search over processes: the children of the root execution are
+	// dealt round-robin to the shards (shard ShardI keeps child j iff j % ShardN == ShardI);
+	// everything below a kept child stays in the same shard. The root itself is accounted by
+	// shard 0 only. State-key pruning is then per shard (sound, merely less effective).
+	ShardI, ShardN int
 }
 
 // Stats is the accounting of one exploration.
@@ -346,7 +351,21 @@ func (s *Scenario) Explore() *Stats {
 				_ = total
 			}
 
+			isRoot := len(prefix) == 0
+			if s.ShardN > 0 && isRoot {
+				kept := kids[:0]
+				for j, k := range kids {
+					if j%s.ShardN == s.ShardI {
+						kept = append(kept, k)
+					}
+				}
+				kids = kept
+			}
+			countThis := !(s.ShardN > 0 && isRoot && s.ShardI != 0)
 			mu.Lock()
+			if !countThis {
+				st.Execs--
+			}
 			// dedup pruning: drop children that lie after a state mark already seen at <= depth
 			if !s.Dedup {
 				// states are only counted
@@ -401,8 +420,10 @@ func (s *Scenario) Explore() *Stats {
 				st.CapsHit = append(st.CapsHit, "stopped-after-hang")
 				st.Hung = true
 			}
-			st.Outcomes[r.Obs]++
-			if r.Nontrivial {
+			if countThis {
+				st.Outcomes[r.Obs]++
+			}
+			if r.Nontrivial && countThis {
 				c := r.Class
 				if c == "" {
 					c = r.Obs
